@@ -34,61 +34,55 @@ theorem match_same_structure (K : Kinds) (t t' : Tree) (ctx : TEnv) (h : matchTr
 
 /-! ## the pre-filter of `search` -/
 
-/-- The extracted tables are what the pre-filter needs at every leaf kind except the listed `badTargets` (on the pinned
-tree: `FunctionType`, which `AST2ASTSLEAF[mod]` omits): each leaf kind is in its own entry and in the entry of every
-class it is an instance of. Re-checked against `Pfst/Gen/Leaf.lean` on every run. -/
+/-- The extracted tables are what the pre-filter needs at every leaf kind except the listed `badTargets` (on CPython
+3.12: `Interpolation` and `TemplateStr`, stand-in classes that `AST2ASTSLEAF[expr]` lists but that are not `expr`
+subclasses and never occur in a tree): each leaf kind is in its own entry, and in the entry of a class exactly when it
+is an instance of that class. Re-checked against `Pfst/Gen/Leaf.lean` on every run. -/
 theorem leaf_table_ok (tk : Nat) (h : tk ∈ Pfst.Gen.Leaf.all) (hb : tk ∉ Pfst.Gen.Leaf.badTargets) :
     TargetOK Pfst.Gen.Leaf.kinds tk := by
   have hchk : (Pfst.Gen.Leaf.all.all fun tk => Pfst.Gen.Leaf.badTargets.contains tk ||
       ((Pfst.Gen.Leaf.leafTable.getD tk []).contains tk &&
        (List.range Pfst.Gen.Leaf.nKinds).all fun k =>
-         !(Pfst.Gen.Leaf.instTable.getD k []).contains tk || (Pfst.Gen.Leaf.leafTable.getD k []).contains tk)) = true := by
+         (Pfst.Gen.Leaf.instTable.getD k []).contains tk == (Pfst.Gen.Leaf.leafTable.getD k []).contains tk)) = true := by
     decide +kernel
   have hlen : Pfst.Gen.Leaf.instTable.length = Pfst.Gen.Leaf.nKinds := by decide +kernel
+  have hlen2 : Pfst.Gen.Leaf.leafTable.length = Pfst.Gen.Leaf.nKinds := by decide +kernel
   rw [List.all_eq_true] at hchk
   have h1 := hchk tk h
   have hb' : Pfst.Gen.Leaf.badTargets.contains tk = false := by simpa using hb
   simp only [hb', Bool.false_or, Bool.and_eq_true, List.all_eq_true] at h1
-  refine ⟨h, by simpa [Pfst.Gen.Leaf.kinds] using h1.1, fun k hk => ?_⟩
-  by_cases hkn : k < Pfst.Gen.Leaf.nKinds
-  · have := h1.2 k (List.mem_range.2 hkn)
-    have hk' : (Pfst.Gen.Leaf.instTable.getD k []).contains tk = true := by simpa [Pfst.Gen.Leaf.kinds] using hk
-    simp only [hk', Bool.not_true, Bool.false_or] at this
-    simpa [Pfst.Gen.Leaf.kinds] using this
-  · exfalso
-    have hnone : Pfst.Gen.Leaf.instTable[k]? = none := List.getElem?_eq_none (by omega)
-    simp [Pfst.Gen.Leaf.kinds, hnone] at hk
+  have key : ∀ k, tk ∈ Pfst.Gen.Leaf.instTable.getD k [] ↔ tk ∈ Pfst.Gen.Leaf.leafTable.getD k [] := by
+    intro k
+    by_cases hkn : k < Pfst.Gen.Leaf.nKinds
+    · have := h1.2 k (List.mem_range.2 hkn)
+      simp only [List.contains_eq_mem, beq_iff_eq, decide_eq_decide] at this
+      exact this
+    · have hn1 : Pfst.Gen.Leaf.instTable[k]? = none := List.getElem?_eq_none (by omega)
+      have hn2 : Pfst.Gen.Leaf.leafTable[k]? = none := List.getElem?_eq_none (by omega)
+      simp [hn1, hn2]
+  refine ⟨h, by simpa [Pfst.Gen.Leaf.kinds] using h1.1, fun k hk => ?_, fun k hk => ?_⟩
+  · exact (key k).1 hk
+  · exact (key k).2 hk
 
 /-- every leaf kind has a non-empty entry inside `ASTS_LEAF__ALL`, and so has every class -/
 theorem leaf_table_nonempty :
     (Pfst.Gen.Leaf.leafTable.all fun la => !la.isEmpty && la.all fun x => Pfst.Gen.Leaf.all.contains x) = true := by
   decide +kernel
 
-/-
-Full statement (prefilter_sound): for every pattern `p` in which each `MNOT` covers only a type-exact pattern
-(built from `...`, classes, `MTYPES`, `M`, `MOR`, `MAND`, `MNOT` of such), `match` succeeds on a node of kind `k` only
-if `k ∈ leafAsts p`.  Proved below for patterns in which no `MNOT` decides the kind of the node (`noMnot`); the
-`MNOT`-over-type-exact case additionally needs `leafOf k ⊆ inst k` at the node's kind and is covered by the
-correspondence only.  For `MNOT` over a field-constrained pattern the statement is false: `prefilter_false`.
--/
-/-- **Pre-filter soundness** (no `MNOT` on the node's own kind): a node that matches has a kind the pre-filter keeps. -/
-theorem prefilter_sound_partial (K : Kinds) (p : Pat) (hp : noMnot p = true) (ctx : TEnv) (t : Tree) (e : TEnv)
+/-- **Pre-filter soundness** for every pattern (all combinators, `MNOT` included): a node that matches has a kind the
+pre-filter keeps.  (`MNOT._leaf_asts` complements the inner leaf set only for type-only inner patterns — a class, `...`,
+`MTYPES` without fields — for which that set is exact; before the repair this was false, finding C17-F1.) -/
+theorem prefilter_sound (K : Kinds) (p : Pat) (ctx : TEnv) (t : Tree) (e : TEnv)
     (la : List Nat) (hk : TargetOK K t.kind) (hl : leafAsts K p = some la) (hm : matchNode K p ctx t = some e) :
     t.kind ∈ la :=
-  sound_node K p hp ctx t e la hk hl hm
+  sound_node K p ctx t e la hk hl hm
 
 private def nameY : Tree := .node 0 Pfst.Gen.Leaf.kName [.node 1 1000 [], .node 2 Pfst.Gen.Leaf.kLoad []]
 private def notNameX : Pat := .mnot (.node Pfst.Gen.Leaf.kName [.node 1001 [], .wild]) none []
 
-/-- `MNOT(MName('x'))` matches the node `y` but the pre-filter computed for it excludes `Name` nodes: `search` cannot
-find `y` (finding C17-F1). -/
-theorem prefilter_false :
-    (matchNode Pfst.Gen.Leaf.kinds notNameX [] nameY).isSome = true ∧
-    (match leafAsts Pfst.Gen.Leaf.kinds notNameX with
-     | some la => la.contains nameY.kind
-     | none => true) = false ∧
-    (search Pfst.Gen.Leaf.kinds notNameX nameY).map Tree.id = [2] ∧
-    ((walk Pfst.Gen.Leaf.kinds nameY).filter (fun n => (matchNode Pfst.Gen.Leaf.kinds notNameX [] n).isSome)).map Tree.id = [0, 2] := by
+-- the former counterexample: `MNOT(MName('x'))` matches the node `y`, and `search` now finds it
+example : (search Pfst.Gen.Leaf.kinds notNameX nameY).map Tree.id = [0, 2] ∧
+    (search Pfst.Gen.Leaf.kinds (.mnot (.type Pfst.Gen.Leaf.kName) none []) nameY).map Tree.id = [2] := by
   decide +kernel
 
 /-- Under pre-filter soundness on the walked nodes, `search` is the walk filtered by `match`, in walk order. -/
@@ -108,39 +102,32 @@ theorem search_eq_filter (K : Kinds) (p : Pat) (t : Tree)
       | false => rfl
       | true => simpa using hs n hn la hla hm
 
-/-- ... in particular for every pattern without a kind-deciding `MNOT`, on trees whose node kinds the tables cover. -/
-theorem search_eq_filter_noMnot (K : Kinds) (p : Pat) (t : Tree) (hp : noMnot p = true)
-    (hk : ∀ n ∈ walk K t, TargetOK K n.kind) :
+/-- ... hence for every pattern, on trees whose node kinds the tables cover (`leaf_table_ok`). -/
+theorem search_eq_filter_all (K : Kinds) (p : Pat) (t : Tree) (hk : ∀ n ∈ walk K t, TargetOK K n.kind) :
     search K p t = (walk K t).filter (fun n => (matchNode K p [] n).isSome) := by
   apply search_eq_filter
   intro n hn la hla hm
   cases he : matchNode K p [] n with
   | none => simp [he] at hm
-  | some e => simpa using sound_node K p hp [] n e la (hk n hn) hla he
+  | some e => simpa using sound_node K p [] n e la (hk n hn) hla he
 
 /-! ## quantifiers -/
 
 /-
 Full statement (list_regex): for ALL pattern sequences `matchList ps xs = (allMatches ps xs).head?`.
-It is false for sublist bodies (`list_regex_false_backoff`, `list_regex_false_reentry`) and for static tags on an
-untagged bounded greedy quantifier (`list_regex_false_static`).
+It is false when a quantified sublist itself contains a quantifier (`list_regex_false_reentry`, finding C17-F3: the
+matcher has no way back into a finished iteration).  Proved for every other shape.
 -/
-/-- **Quantifiers are regular expressions** when every quantifier body is a single element pattern, there are no
-static tags and `min ≤ max`: for every pattern sequence (elements, wildcards, tagged elements, back-references,
-greedy and non-greedy `{min,max}` quantifiers with or without a tag) and every element sequence, the matcher as
-written returns exactly the first match of the ordered list-of-successes semantics — same accept/reject, same tags. -/
+/-- **Quantifiers are regular expressions** when no quantified sublist contains a quantifier: for every pattern
+sequence of elements, wildcards, tagged elements, back-references and greedy / non-greedy `{min,max}` quantifiers
+(`min ≤ max`; with or without pattern tag and static tags) over a single element pattern or over a non-empty sublist of
+element patterns, and every element sequence, the matcher as written returns exactly the first match of the ordered
+list-of-successes semantics — same accept/reject, same tags. -/
 theorem list_regex_partial (ps : List LPat) (xs : List Nat) (h : ps.all simpleItem = true) :
     matchList ps xs = (allMatches ps xs).head? :=
   matchList_eq_spec ps xs h
 
 private def star : QSpec := { mn := 0, mx := none, greedy := true }
-
-/-- `[MQSTAR(['a','b']), 'b', 'c']` accepts `[a, b, c]` in the code as written; `(?:ab)*bc` does not match `abc`
-(finding C17-F2: the greedy back-off steps back one element although the iteration consumed two). -/
-theorem list_regex_false_backoff :
-    matchList [.ql star [.elem (.lit 0), .elem (.lit 1)], .elem (.lit 1), .elem (.lit 2)] [0, 1, 2] = some [] ∧
-    specMatch [.ql star [.elem (.lit 0), .elem (.lit 1)], .elem (.lit 1), .elem (.lit 2)] [0, 1, 2] = none := by
-  decide +kernel
 
 /-- `[MQ(['a', MQSTAR('b')], 1, 2), 'b']` rejects `[a, b, b]` in the code as written; `(?:ab*){1,2}b` matches `abb`
 (finding C17-F3: a choice point inside a finished sublist iteration is never re-entered). -/
@@ -149,15 +136,15 @@ theorem list_regex_false_reentry :
     specMatch [.ql { mn := 1, mx := some 2, greedy := true } [.elem (.lit 0), .qs star (.lit 1)], .elem (.lit 1)] [0, 1, 1] = some [] := by
   decide +kernel
 
-/-- `[MQ(M(t=...), 0, 2, s=1), 'b', 'c']` on `[a, b, c]`: the quantifier keeps one iteration (`a`) but the code as
-written reports `t = b`, the capture of the iteration it gave back (finding C17-F4: `static_tags` is appended once per
-completed counting phase, so `del matches[-2]` removes the first copy of the static tags instead of the last match). -/
-theorem list_regex_false_static :
-    (matchList [.qs { mn := 0, mx := some 2, greedy := true, static := [(5, 1)] } (.cap 0 .any), .elem (.lit 1), .elem (.lit 2)]
-      [0, 1, 2]).map (fun d => lookup d 0) = some (some (.elem 1 1)) ∧
-    (specMatch [.qs { mn := 0, mx := some 2, greedy := true, static := [(5, 1)] } (.cap 0 .any), .elem (.lit 1), .elem (.lit 2)]
-      [0, 1, 2]).map (fun d => lookup d 0) = some (some (.elem 0 0)) := by
-  decide +kernel
+-- the former counterexamples C17-F2 (`(?:ab)*bc` on `abc`) and C17-F4 (static tags on a bounded greedy quantifier)
+-- are inside the proved fragment; the repaired matcher rejects / reports the capture of the kept iteration
+private def f2Ps : List LPat := [.ql star [.elem (.lit 0), .elem (.lit 1)], .elem (.lit 1), .elem (.lit 2)]
+private def f4Ps : List LPat :=
+  [.qs { mn := 0, mx := some 2, greedy := true, static := [(5, 1)] } (.cap 0 .any), .elem (.lit 1), .elem (.lit 2)]
+example : f2Ps.all simpleItem = true ∧ f4Ps.all simpleItem = true := by decide
+example : matchList f2Ps [0, 1, 2] = none ∧ (matchList f2Ps [0, 1, 0, 1, 1, 2]).isSome = true := by decide +kernel
+example : (matchList f4Ps [0, 1, 2]).map (fun d => (lookup d 0, lookup d 5)) =
+    some (some (.elem 0 0), some (.static 1)) := by decide +kernel
 
 /-! ## non-vacuity -/
 
@@ -176,8 +163,6 @@ private def exT' : Tree := .node 9 Pfst.Gen.Leaf.kBinOp [.node 8 Pfst.Gen.Leaf.k
   .node 5 Pfst.Gen.Leaf.kAdd [], .node 4 Pfst.Gen.Leaf.kConstant [.node 3 1002 [], .node 2 Pfst.Gen.Leaf.noneKind []]]
 example : diff1 exT exT' = true := by decide
 example : Pfst.Gen.Leaf.kName ∈ Pfst.Gen.Leaf.all ∧ Pfst.Gen.Leaf.kName ∉ Pfst.Gen.Leaf.badTargets := by decide
-example : noMnot (.mor [(none, .type Pfst.Gen.Leaf.kexpr), (some 0, .mand [(none, .node Pfst.Gen.Leaf.kName [.wild, .wild])])]) = true := by
-  decide
 example : (walk Pfst.Gen.Leaf.kinds exT).length = 5 := by decide +kernel
 
 end Pfst.C17
